@@ -44,7 +44,8 @@ LEVEL_TEXT = (
     "scanned); length-changing positions and multiple outputs are refused under map_overlap before any work; the dask mode chosen is never one xarray "
     "would reject for that input and cumsum is never mapped chunk-wise; map_overlap receives depth = boundary width on the right numpy axis, no "
     "boundary, no trim and the unpadded chunks; the boundary chunks created by padding are merged with exactly the pad widths; vector dictionaries are "
-    "unpacked before array attributes are read. Equality of computed values under every chunking/scheduler is runtime behaviour of dask and is not claimed."
+    "unpacked before array attributes are read; xarray.apply_ufunc is given what it needs to build a lazy result (dask mode, output dtypes, sizes of new core "
+    "dimensions) by the grid-ufunc machinery and by both transform wrappers. Equality of computed values under every chunking/scheduler is runtime behaviour of dask and is not claimed."
 )
 LEVEL_NOTE = "Trusted: dask/xarray contracts. Only the structural clauses are claimed; value equality under chunking is not applicable to static analysis."
 
